@@ -119,7 +119,10 @@ fn b64(bytes: &[u8]) -> String {
   base64::encode(bytes)
 }
 
-const MALFORMED: [&str; 35] = [
+const MALFORMED: [&str; 38] = [
+  "eval_generated_expression",
+  "eval_generated_expression",
+  "eval_generated_expression",
   "eval_computed_number",
   "eval_computed_number",
   "eval_long_nonascii_broken_context",
@@ -178,7 +181,14 @@ const ODD_NUMBERS: [&str; 16] = [
   "(10 ** 6000) * (10 ** 6000) / ((10 ** 6000) * (10 ** 6000))",
 ];
 
-const ODD_CONTEXTS: [&str; 8] = [
+const ODD_CONTEXTS: [&str; 14] = [
+  // values that exist but are out of the range of what the date library represents
+  "{s: string(time(10, 0, 0, duration(\"PT99999H\")) = time(\"10:00:00Z\"))}",
+  "{s: string(date and time(date(\"2021-01-01\"), time(10, 0, 0, duration(\"PT24H\"))) - date and time(\"2021-01-01T10:00:00Z\"))}",
+  "{s: string(time(10, 0, 0, duration(\"-P99999999999D\")) < time(\"10:00:00Z\"))}",
+  "{s: string(date and time(\"262143-12-31T23:59:59-14:00\") - date and time(\"-262144-01-01T00:00:00+14:00\"))}",
+  "{s: string(date(\"999999999-12-31\") + duration(\"P1D\"))}",
+  "{s: string(years and months duration(date(\"-999999999-01-01\"), date(\"999999999-12-31\")))}",
   "{s: date(99999999999, 13, 40)}",
   "{s: 10 ** 9999999}",
   "{s: substring(\"abc\", 0, 99999999999999999999)}",
@@ -450,6 +460,16 @@ fn build_request(s: &Setup, r: &Value) -> Built {
             label: format!("{} {}", label, decision),
           }
         }
+        // an expression of C13's grammar (context-pushing constructs, built-in functions, failing
+        // sub-expressions) evaluated as an entry of the input context
+        "eval_generated_expression" => Built {
+          method: "POST",
+          path: format!("/evaluate/{}/echo_s", percent_encode(&model_name(m))),
+          content_type: None,
+          body: crate::c13::generated_request_context(pu64(r, "g")).into_bytes(),
+          op: Op::EvalAny(model_name(m)),
+          label: label.clone(),
+        },
         "eval_nonutf8_body" => raw("POST", &format!("/evaluate/{}/d", percent_encode(&model_name(m))), None, vec![b'{', 0xff, 0xfe, b'}'], true),
         "eval_empty_body" => Built {
           method: "POST",
@@ -1836,7 +1856,7 @@ fn loopback_script(seed: u64) -> Vec<Value> {
       3 => json!({"kind": "deploy"}),
       4 => json!({"kind": "clear"}),
       5 | 6 => json!({"kind": "eval", "m": m}),
-      7 => json!({"kind": "mal", "what": rng.pick(&MALFORMED), "m": m, "n": rng.below(80)}),
+      7 => json!({"kind": "mal", "what": rng.pick(&MALFORMED), "m": m, "n": rng.below(80), "g": rng.below(1 << 40)}),
       _ => gen_echo(&mut rng, m.to_string()),
     };
     script.push(r);
@@ -2159,7 +2179,7 @@ impl Sim for C18 {
           } else if deployed && use_tod && roll < 55 {
             json!({"kind": "tod", "m": target(&mut rng, &guess)})
           } else if use_mal && (50..65).contains(&roll) {
-            json!({"kind": "mal", "what": rng.pick(&MALFORMED), "m": target(&mut rng, &guess), "n": rng.below(80)})
+            json!({"kind": "mal", "what": rng.pick(&MALFORMED), "m": target(&mut rng, &guess), "n": rng.below(80), "g": rng.below(1 << 40)})
           } else if !guess.is_empty() && !deployed && roll < 62 {
             json!({"kind": "deploy"})
           } else if (80..82).contains(&roll) {
